@@ -1878,7 +1878,8 @@ def run(ctx):
     rk = ctx.rng("pair-span")
     mk_dis = mk_dis + ctx.correspond("kern-machine-flags", lines=PF.mk_lines(rk, ctx.budget(3000, 100000), pcc),
                                      classify=PF.classify_k, canon=GFc.canon)
-    ctx.correspond("kerx-simple-flags", lines=PF.kx_lines(rk, ctx.budget(2000, 60000), pcc, kplans), classify=PF.classify_k, canon=GFc.canon)
+    mk_dis = mk_dis + ctx.correspond("kerx-simple-flags", lines=PF.kx_lines(rk, ctx.budget(2000, 60000), pcc, kplans),
+                                     classify=PF.classify_k, canon=GFc.canon)
     ctx.correspond("gpos-lookup", groups=pos_groups(shim, ctx.rng("pos"), ctx.budget(150, 6000), ctx.budget(12, 16)),
                    classify=classify_pos, canon=canon, only=lambda ln: ln.startswith("gp pos"))
     corpus_seeds(ctx, shim)
